@@ -1,4 +1,5 @@
 import Nstd.Seq.LemmasPtrSortFrame
+import Nstd.Seq.LemmasSortChecked
 /-
   Property C03, `List<T>::sort()` beyond the default `<` on `int`.
 
@@ -8,7 +9,7 @@ import Nstd.Seq.LemmasPtrSortFrame
 
   * any function at all (also inconsistent ones, also a non-strict `<=`): the sort terminates within its recursion
     fuel, never leaves `left … right` (value level: frame; heap level: no null `next` followed, no link written) and
-    leaves a permutation                                       — `sort_any_comparator`, `sort_frame_any`, `ptr_sort_comparator`;
+    leaves a permutation                                       — `sort_any_comparator`, `sort_frame_any`, `sort_checked_reads`, `ptr_sort_comparator`;
   * the order of the result for the two sensible kinds of comparison: a strict partial / strict weak order (`sort_sorted`
     of Props.lean is the instance) and a total preorder used as non-strict comparator such as `<=` — `sort_comparator`,
     `sort_nonstrict`, `sort_nonstrict_int`;
@@ -36,6 +37,15 @@ theorem sort_frame_any {α : Type} [Inhabited α] (lt : α → α → Bool)
       ∀ k, k < left ∨ right < k → rd m' k = rd m k := by
   obtain ⟨m', e, w, _, p⟩ := qsortF_rel lt (fun _ _ => True) (ord3_true lt) f m left right h1 h2 h3
   exact ⟨m', e, w.1, p, fun k hk => w.2.1 k (by omega)⟩
+
+/-- No out-of-range access, for every element type: `sortValsC` is the same quicksort with CHECKED reads — each `ptr->value`
+    during `QuickSort::sort(left, right)` must be a position inside `left … right` and inside the list, anything else is a
+    fault (`none`).  For EVERY comparison function and EVERY input it never faults and returns exactly what the totalised
+    `sortVals` returns (whose reads go through `getD`): the totalisation hides no access outside the segment. -/
+theorem sort_checked_reads {α : Type} [Inhabited α] (lt : α → α → Bool) (vs : List α) :
+    sortValsC lt vs = sortVals lt vs ∧ ∃ r, sortValsC lt vs = some r ∧ r.Perm vs := by
+  obtain ⟨r, e, p⟩ := sort_any_comparator lt vs
+  exact ⟨sortValsC_eq lt vs, r, by rw [sortValsC_eq, e], p⟩
 
 /-! ### The order of the result, comparator as parameter -/
 
@@ -176,6 +186,11 @@ example : (∀ x y, leInt x y = true ∨ leInt y x = true) ∧
    by intro x y z h1 h2; simp only [leInt, decide_eq_true_eq] at *; omega, by decide⟩
 
 example : sortVals leInt [3, 1, 2, 3, 0, -5, 1] = some [-5, 0, 1, 1, 2, 3, 3] := by decide
+
+example : sortValsC ltInt [3, 1, 2, 3, 0, -5, 1] = some [-5, 0, 1, 1, 2, 3, 3] := by decide
+
+/-- the checked read does fault outside the segment: it is not vacuous -/
+example : rdC [1, 2, 3] 1 2 0 = none ∧ rdC [1, 2, 3] 1 2 3 = none ∧ rdC [1, 2, 3] 1 2 2 = some 3 := by decide
 
 /-- an inconsistent comparison (always "smaller"): still terminates with a permutation -/
 example : sortVals (fun (_ _ : Int) => true) [3, 1, 2, 5] = some [1, 2, 5, 3] := by decide
